@@ -204,6 +204,9 @@ pub type FsObserver = Box<dyn FnMut(&FsEvent) + Send>;
 static FS_ACTIVE: AtomicBool = AtomicBool::new(false);
 static FS_SEQ: AtomicU64 = AtomicU64::new(0);
 static FS_ROOT: Mutex<String> = Mutex::new(String::new());
+/// the same directory as FS_ROOT under another name (a symlinked prefix); path arguments
+/// that start with it are rewritten to FS_ROOT
+static FS_ALIAS: Mutex<String> = Mutex::new(String::new());
 static FS_OBSERVER: Mutex<Option<FsObserver>> = Mutex::new(None);
 /// serialises "before-callback, real call, after-callback" across threads
 static FS_LOCK: Mutex<()> = Mutex::new(());
@@ -215,6 +218,19 @@ thread_local! {
 
 pub fn fs_seq() -> u64 {
     FS_SEQ.load(Ordering::SeqCst)
+}
+
+pub fn fs_alias(alias: &str) {
+    *FS_ALIAS.lock().unwrap() = alias.trim_end_matches('/').to_string();
+}
+
+fn dealias(p: String) -> String {
+    let alias = FS_ALIAS.lock().unwrap_or_else(|e| e.into_inner());
+    if !alias.is_empty() && p.starts_with(alias.as_str()) && p.as_bytes().get(alias.len()).map_or(true, |c| *c == b'/') {
+        let root = FS_ROOT.lock().unwrap_or_else(|e| e.into_inner());
+        return format!("{}{}", root, &p[alias.len()..]);
+    }
+    p
 }
 
 pub fn fs_watch(root: &str, obs: FsObserver) {
@@ -247,14 +263,14 @@ fn abs_path(dirfd: c_int, p: *const c_char) -> Option<String> {
     }
     let s = unsafe { CStr::from_ptr(p) }.to_string_lossy().into_owned();
     if s.starts_with('/') {
-        return Some(normalize(&s));
+        return Some(dealias(normalize(&s)));
     }
     let base = if dirfd == libc::AT_FDCWD {
         std::env::current_dir().ok()?.to_string_lossy().into_owned()
     } else {
         fd_path(dirfd)?
     };
-    Some(normalize(&format!("{}/{}", base, s)))
+    Some(dealias(normalize(&format!("{}/{}", base, s))))
 }
 
 fn normalize(p: &str) -> String {
